@@ -1049,7 +1049,12 @@ pub unsafe extern "C" fn SFileGetFileName(file: HANDLE, buffer: *mut c_char) -> 
         }
     };
 
-    std::ptr::copy_nonoverlapping(c_name.as_ptr(), buffer, c_name.as_bytes_with_nul().len());
+    // The StormLib contract gives the callee a buffer of MAX_PATH (260) chars and no length:
+    // never write more than 259 name bytes plus the terminator (as SFILE_FIND_DATA does).
+    let name_bytes = c_name.as_bytes();
+    let copy_len = name_bytes.len().min(259);
+    std::ptr::copy_nonoverlapping(name_bytes.as_ptr() as *const c_char, buffer, copy_len);
+    *buffer.add(copy_len) = 0;
 
     set_last_error(ERROR_SUCCESS);
     true
